@@ -30,7 +30,19 @@ func caseSaga(cs *fw.Case, directed int) {
 	loss := r.Pick([]string{"squared", "logistic"})
 	variant := r.Pick([]string{"Objective1Dense", "Objective2Dense", "Objective1Sparse", "Objective2Sparse"})
 	reg := r.Pick([]string{"none", "none", "tikhonov", "l2", "l1"})
-	useHook := reg != "none" && r.Chance(0.6) // the hook dereferences the proximal operator
+	useHook := reg != "none" && r.Chance(0.6)
+	// a hook without any regulariser is a valid configuration as well (the routine
+	// dereferences the absent proximal operator there: reported as its own signature)
+	hookNoReg := reg == "none" && r.Chance(0.1)
+	if hookNoReg {
+		useHook = true
+	}
+	// how the objective hands out its gradient vector: a fresh one per call, one
+	// preallocated buffer per sample, or a single shared buffer
+	buffers := "fresh"
+	if variant[9] == '2' {
+		buffers = r.Pick([]string{"fresh", "fresh", "per-sample", "shared"})
+	}
 	zeroStart := r.Chance(0.3)
 	if directed >= 0 {
 		// l1-regularised problems started at zero whose leading coordinate has no
@@ -38,6 +50,16 @@ func caseSaga(cs *fw.Case, directed int) {
 		reg, zeroStart, loss = "l1", true, "squared"
 		variant = []string{"Objective1Dense", "Objective2Dense", "Objective1Sparse", "Objective2Sparse"}[directed%4]
 		useHook = directed%2 == 0
+		hookNoReg = false
+		if directed >= 16 {
+			// hook without regulariser
+			reg, useHook, hookNoReg = "none", true, true
+		}
+		if variant[9] == '2' {
+			buffers = []string{"per-sample", "shared"}[(directed/4)%2]
+		} else {
+			buffers = "fresh"
+		}
 		if d < 3 {
 			d = 3
 			m = r.Range(d+2, 18)
@@ -101,7 +123,7 @@ func caseSaga(cs *fw.Case, directed int) {
 	}
 	ru := &run{cs: cs, monitor: "saga", routine: "saga.Run", opts: variant + ",reg=" + reg, class: class}
 	ru.witness = map[string]any{"Z": Z, "y": Y, "loss": loss, "variant": variant, "reg": reg, "lambda": lambda, "gamma": gamma, "epsilon": eps,
-		"maxIterations": maxIter, "seed": seed, "x0": x0, "hook": useHook}
+		"maxIterations": maxIter, "seed": seed, "x0": x0, "hook": useHook, "gradientBuffers": buffers}
 
 	// per-sample loss value and derivative with respect to the linear predictor
 	lossAt := func(i int, x []float64) (float64, float64) {
@@ -138,51 +160,80 @@ func caseSaga(cs *fw.Case, directed int) {
 	}
 	evals := 0
 	var epochStart []float64 // x at the first evaluation of the current epoch
+	observing := true
 	observe := func(x ad.DenseFloat64Vector) {
+		if !observing {
+			return
+		}
 		if evals >= m && (evals-m)%m == 0 {
 			epochStart = cloneF(x)
 		}
 		evals++
 	}
-	var f interface{}
-	switch variant {
-	case "Objective1Dense":
-		f = saga.Objective1Dense(func(i int, x ad.DenseFloat64Vector) (float64, float64, ad.DenseFloat64Vector, error) {
-			observe(x)
-			y, w := lossAt(i, x)
-			return y, w, zDense[i], nil
-		})
-	case "Objective2Dense":
-		f = saga.Objective2Dense(func(i int, x ad.DenseFloat64Vector) (float64, ad.DenseFloat64Vector, error) {
-			observe(x)
-			y, w := lossAt(i, x)
-			g := make([]float64, d)
-			for j := range g {
-				g[j] = w * Z[i][j]
+	// mkObjective builds the objective with the given buffer policy
+	mkObjective := func(buf string) interface{} {
+		shared := make([]float64, d)
+		per := make([][]float64, m)
+		for i := range per {
+			per[i] = make([]float64, d)
+		}
+		dense := func(i int) []float64 {
+			switch buf {
+			case "shared":
+				return shared
+			case "per-sample":
+				return per[i]
 			}
-			return y, ad.NewDenseFloat64Vector(g), nil
-		})
-	case "Objective1Sparse":
-		f = saga.Objective1Sparse(func(i int, x ad.DenseFloat64Vector) (float64, float64, ad.SparseConstFloat64Vector, error) {
-			observe(x)
-			y, w := lossAt(i, x)
-			return y, w, zSparse[i], nil
-		})
-	default:
-		f = saga.Objective2Sparse(func(i int, x ad.DenseFloat64Vector) (float64, ad.SparseConstFloat64Vector, error) {
-			observe(x)
-			y, w := lossAt(i, x)
-			var idx []int
-			var val []float64
-			for j, v := range Z[i] {
-				if v != 0 {
-					idx = append(idx, j)
-					val = append(val, w*v)
+			return make([]float64, d)
+		}
+		switch variant {
+		case "Objective1Dense":
+			return saga.Objective1Dense(func(i int, x ad.DenseFloat64Vector) (float64, float64, ad.DenseFloat64Vector, error) {
+				observe(x)
+				y, w := lossAt(i, x)
+				return y, w, zDense[i], nil
+			})
+		case "Objective2Dense":
+			return saga.Objective2Dense(func(i int, x ad.DenseFloat64Vector) (float64, ad.DenseFloat64Vector, error) {
+				observe(x)
+				y, w := lossAt(i, x)
+				g := dense(i)
+				for j := range g {
+					g[j] = w * Z[i][j]
+				}
+				return y, ad.DenseFloat64Vector(g), nil
+			})
+		case "Objective1Sparse":
+			return saga.Objective1Sparse(func(i int, x ad.DenseFloat64Vector) (float64, float64, ad.SparseConstFloat64Vector, error) {
+				observe(x)
+				y, w := lossAt(i, x)
+				return y, w, zSparse[i], nil
+			})
+		default:
+			idxOf := make([][]int, m)
+			for i := range Z {
+				for j, v := range Z[i] {
+					if v != 0 {
+						idxOf[i] = append(idxOf[i], j)
+					}
 				}
 			}
-			return y, ad.NewSparseConstFloat64Vector(idx, val, d), nil
-		})
+			return saga.Objective2Sparse(func(i int, x ad.DenseFloat64Vector) (float64, ad.SparseConstFloat64Vector, error) {
+				observe(x)
+				y, w := lossAt(i, x)
+				val := dense(i)[:len(idxOf[i])]
+				for k, j := range idxOf[i] {
+					val[k] = w * Z[i][j]
+				}
+				if buf == "fresh" {
+					return y, ad.NewSparseConstFloat64Vector(append([]int(nil), idxOf[i]...), val, d), nil
+				}
+				// the values live in the reused buffer
+				return y, ad.UnsafeSparseConstFloat64Vector(idxOf[i], val, d), nil
+			})
+		}
 	}
+	f := mkObjective(buffers)
 	args := []interface{}{saga.Epsilon{Value: eps}, saga.Gamma{Value: gamma}, saga.MaxIterations{Value: maxIter}, saga.Seed{Value: seed}}
 	switch reg {
 	case "tikhonov":
@@ -192,6 +243,7 @@ func caseSaga(cs *fw.Case, directed int) {
 	case "l1":
 		args = append(args, saga.L1Regularization{Value: lambda})
 	}
+	baseArgs := append([]interface{}(nil), args...)
 	hooks := 0
 	var lastHookX []float64
 	prevX := cloneF(x0)
@@ -220,19 +272,37 @@ func caseSaga(cs *fw.Case, directed int) {
 	o := ru.outcome(p, err, false, epochs >= maxIter)
 	cs.Cover("variant:" + variant)
 	cs.Cover("reg:" + reg)
+	cs.Cover("saga-gradient-buffers:" + buffers)
 	cs.C.CoverMax("max:iterations:saga", int64(epochs))
 	if o == "no-return" {
 		cs.Skip("no-return")
 		return
 	}
 	if o == "panic" {
-		cs.Cover("panic:saga:" + p.Frame) // loud; not a C07 matter
+		cs.Cover("panic:saga:" + p.Frame)
+		if hookNoReg {
+			// a valid call (hook, no regulariser) does not return a point at all
+			ru.violWith("hook,reg=none", "any", "panic-on-valid-call", fmt.Sprintf("saga.Run with a Hook and without regulariser panicked: %s (%s)", p.Msg, p.Frame))
+		}
 		return
 	}
 	if evals > m {
 		cs.Nontrivial("saga", ru.witness)
 	}
 	cs.Sample(map[string]any{"routine": "saga.Run", "case": ru.witness, "outcome": o, "epochs": epochs, "returned": vecOrNil(xr), "err": errString(err)})
+	if buffers != "fresh" {
+		observing = false
+		sagaBufferDifferential(ru, buffers, xr, err, func() (ad.Vector, error) {
+			var x2 ad.Vector
+			var err2 error
+			if p2 := guarded(int64(maxIter)+100, func() {
+				x2, _, err2 = saga.Run(mkObjective("fresh"), m, ad.NewDenseFloat64Vector(cloneF(x0)), baseArgs...)
+			}); p2 != nil {
+				return nil, fmt.Errorf("panic: %s", p2.Msg)
+			}
+			return x2, err2
+		})
+	}
 	if err != nil || xr == nil || o != "converged" || epochStart == nil {
 		return
 	}
@@ -262,6 +332,23 @@ func caseSaga(cs *fw.Case, directed int) {
 		}
 		ru.violWith(ru.opts, cl, "stop-condition", fmt.Sprintf("returned after %d epochs without error or cap, but max|x-xs|/max|x| = %.6g exceeds epsilon*gamma = %.6g (x = %s, previous epoch xs = %s)",
 			epochs, delta, eps*gamma, fmtVec(xs), fmtVec(epochStart)))
+	}
+}
+
+// sagaBufferDifferential re-runs the same problem with an objective that allocates a
+// fresh gradient vector per call; the random sample order is fixed by Seed, so the
+// result must not depend on whether the objective reuses its output buffers.
+func sagaBufferDifferential(ru *run, buffers string, xr ad.Vector, err error, rerun func() (ad.Vector, error)) {
+	x2, err2 := rerun()
+	ru.cs.Cover("judged:buffer-reuse:saga.Run:" + buffers)
+	same := (err == nil) == (err2 == nil) && (xr == nil) == (x2 == nil)
+	if same && xr != nil {
+		same = sameVec(toSlice(xr), toSlice(x2))
+	}
+	if !same {
+		ru.violWith(ru.opts+",buffers="+buffers, ru.class, "result-depends-on-gradient-buffer-reuse",
+			fmt.Sprintf("objective that writes its gradient into a %s buffer: returned %v (err %v); the same objective allocating a fresh vector per call (same Seed): %v (err %v)",
+				buffers, vecOrNil(xr), err, vecOrNil(x2), err2))
 	}
 }
 
